@@ -122,6 +122,16 @@ CHECKS = {
         note="The documented exception types are those of the compile() docstring.",
         design="2/C10",
     ),
+    "C15": dict(
+        category="exploration",
+        technique="exhaustive enumeration of programs and documented JSON shapes driven through both command line entry points (in-process runpy emulation bound to real subprocesses on a subset)",
+        text="For every program of the lexer-corner set, G-forms and G-prog the compile command's exit status, JSON structure and "
+             "jump parameters (1-based target positions, targets known from the API) are checked, its output is fed to the "
+             "decompile command and the result compared with the API round trip; the decompile command is run on every "
+             "documented routine and argument type and on failing invocations.",
+        note="The decompiler's own defects are C02's business: the CLI round trip is compared with the API round trip first.",
+        design="2/C15",
+    ),
     "C16": dict(
         category="exploration",
         technique="exhaustive single (thorough: adjacent double) separator deviations at every token boundary of each base program, plus alternative spellings; compiled ops compared with the base",
